@@ -18,12 +18,17 @@ func ParseEntry(s string) (netip.Addr, bool) {
 			return netip.Addr{}, false
 		}
 		rest := s[end+1:]
-		if rest != "" && (!strings.HasPrefix(rest, ":") || strings.Contains(rest[1:], ":")) {
+		// after the closing bracket: nothing, or ":port" (a port contains no colon and no bracket)
+		if rest != "" && (!strings.HasPrefix(rest, ":") || strings.ContainsAny(rest[1:], ":[]")) {
 			return netip.Addr{}, false
 		}
 		addr = s[1:end]
 	case strings.Count(s, ":") == 1:
-		addr = s[:strings.IndexByte(s, ':')]
+		i := strings.IndexByte(s, ':')
+		if strings.ContainsAny(s[i+1:], "[]") {
+			return netip.Addr{}, false
+		}
+		addr = s[:i]
 	}
 	a, err := netip.ParseAddr(addr)
 	if err != nil {
